@@ -163,8 +163,14 @@ def run(ctx: Ctx, tier: str) -> Result:
                         ok = False
                         why = "saved value at %s comes from %s, not %s()" % (sf.loc(v), sorted(srcs), getter)
                     # saved before the matching install call
+                    # a save made in both branches of an if/else precedes what follows that statement
+                    anchor_ = v
+                    for a_ in p.ancestors(v, stop=sf.node):
+                        if isinstance(a_, ast.If) and a_.orelse and all(any(paths.within(p, v2, blk_) for sf2, v2 in stores if sf2 is sf for blk_ in br)
+                                                                        for br in (a_.body, a_.orelse)):
+                            anchor_ = a_
                     for ifi, icall, iext in installs:
-                        if ifi is sf and not paths.dominates(p, v, icall, sf):
+                        if ifi is sf and not paths.dominates(p, anchor_, icall, sf):
                             ok = False
                             why = "the save at %s does not precede the install at %s" % (sf.loc(v), ifi.loc(icall))
         if ok:
